@@ -11,6 +11,7 @@ EXPLANATION = (
     "[RX-RAISE] a connection-ending raise in a _receive_impl depends only on emptiness of the raw read (or the literal busy banner), never on content. The callback's except clause cannot fail itself (logging of plain names only). [BUF-PROGRESS] each scan iteration removes the buffer exactly through start + packet length (no packet seen twice). [RX-FRAME] readexactly(13) for the fixed EByte framing, line reads for text formats. [SER-STATE] the serial path writes only its buffer, "
     "appends before scanning and leaves the scan loop only on need-more-data conditions, so delivery depends on the concatenation of reads, not on "
     "their boundaries. The serial clauses (BUF-PROGRESS, SER-DELIVER, SER-STATE) are decided by rules_serial.py (interpreted byte-class streams under many cuts into reads: same deliveries for every cut); the CFG rules confirm. UNDECIDED: equality with the decoder's output on arbitrary streams (needs exploration), slow callbacks."
+    ' Fifth round: a path through a fault handler is a witness only when no undecided test on it reads something of the client that may stand for the connection state; start / get / put sites that moved into helpers, an attempt or a callback inside a `with` over an unknown context manager, and reads made through helpers are undecided; a helper coroutine runs under the lock when every call (or hand-over as a value) of it does.'
 )
 ASSUMPTIONS = ["CPython ast parser", "asyncio.Queue is FIFO", "StreamReader.readexactly/readline reassemble across transport chunks", "cfg.py exception-edge model"]
 
